@@ -16,7 +16,7 @@ type c11 struct{}
 func (c11) ID() string    { return "C11" }
 func (c11) Level() string { return "exploration" }
 func (c11) Rule() string {
-	return "27 default-able facts (default network membership; implicit default network; <project>_<key> names of network/volume/secret/config; depends_on implied by links, network_mode/ipc/pid service: namespaces, volumes_from; build context; dockerfile; port protocol; port mode; secret target; depends_on required; depends_on short list; env_file required; device count; pull_policy alias), each carried by its own service: every subset of <=3 facts left implicit and every subset of <=3 facts written explicitly (thorough: all 2^14 subsets of the first 14), delivered by main file / override / include / extended base, and (main file, extended base) under a later layer that adds other entries to the same attributes; oracle: implicit model == all-explicit model delivered the same way. Plus, per fact, an explicit non-default value that must survive, an implied depends_on that must not replace a declared one, and the `default` network present iff used. distinct = distinct subsets x origins"
+	return "27 default-able facts (default network membership; implicit default network; <project>_<key> names of network/volume/secret/config; depends_on implied by links, network_mode/ipc/pid service: namespaces, volumes_from; build context; dockerfile; port protocol; port mode; secret target; depends_on required; depends_on short list; env_file required; device count; pull_policy alias), each carried by its own service: every subset of <=3 facts left implicit and every subset of <=3 facts written explicitly (thorough: all 2^14 subsets of the first 14), delivered by main file / override / include / extended base (other file and same file), and (main file, extended base) under a later layer that adds other entries to the same attributes; oracle: implicit model == all-explicit model delivered the same way. Plus, per fact, an explicit non-default value that must survive, an implied depends_on that must not replace a declared one, and the `default` network present iff used. distinct = distinct subsets x origins"
 }
 func (c11) Assumptions() []string {
 	return []string{"projects compared with go-cmp (EquateEmpty) over all model fields"}
@@ -232,6 +232,19 @@ func c11scn(facts []c11fact, doc, origin string) *Scn {
 		files["compose.yaml"] = doc
 		files["refine.yaml"] = refineLayer(false)
 		main = []string{"compose.yaml", "refine.yaml"}
+	case "extends-same-file", "extends-same-file+refine":
+		// base and extending service live in one file: the base is merged as written, before any canonical form exists
+		tops := c11tops(doc)
+		svcs := strings.TrimSuffix(doc, tops)
+		var sb strings.Builder
+		for i, f := range facts {
+			svcs = strings.Replace(svcs, fmt.Sprintf("\n  f%02d:\n", i), fmt.Sprintf("\n  b%02d:\n", i), 1)
+			fmt.Fprintf(&sb, "  f%02d:\n    extends: {service: b%02d}\n", i, i)
+			if origin == "extends-same-file+refine" {
+				sb.WriteString(f.refine)
+			}
+		}
+		files["compose.yaml"] = svcs + sb.String() + tops
 	case "extends", "extends+refine":
 		// every service arrives from an extended base; with refine the extending service adds the other entries
 		files["base.yaml"] = doc
@@ -270,7 +283,7 @@ func (c11) Run(c *core.Ctx) {
 			add(m)
 		}
 	}
-	for _, origin := range []string{"main", "override", "include", "main+refine", "extends", "extends+refine"} {
+	for _, origin := range []string{"main", "override", "include", "main+refine", "extends", "extends+refine", "extends-same-file", "extends-same-file+refine"} {
 		origin := origin
 		var ref *types.Project
 		getRef := func() (*types.Project, error) {
